@@ -1089,7 +1089,74 @@ class Freshness:
             return True
         if isinstance(r, ast.Call):
             return self.fresh_expr(fi, r, pf) and not (isinstance(r.func, ast.Attribute) and r.func.attr in ("keys", "values", "items"))
+        if isinstance(r, ast.Attribute):
+            return self._fresh_field(fi, r, pf)
         return False
+
+    def _fresh_field(self, fi, r, pf):
+        """`X.a` where X is an object constructed in this very call by a class of the analysed program whose
+        constructor stores a container of its own making into `a` (`Link(...).attr_pairs`: Link.__init__ builds
+        the pair list with a comprehension), and every other store to `X.a` in the function is a fresh value:
+        filling in the result object after constructing it is the same fact as passing everything to the
+        constructor.  The constructor is read, never assumed: a class that keeps the argument itself
+        (`self.a = a`) makes `X.a` as fresh as that argument."""
+        x = r.value
+        if isinstance(fi.node, ast.Lambda):
+            return False
+        if isinstance(x, ast.Name):
+            if x.id in all_params(fi) or x.id in ("self", "cls"):
+                return False
+            ws = writes_to_name(fi.node, x.id)
+            if not ws or not all(isinstance(w, ast.Assign) and len(w.targets) == 1 and isinstance(w.targets[0], ast.Name) and isinstance(w.value, ast.Call) for w in ws):
+                return False
+            ctors = [w.value for w in ws]
+            for n in walk_no_nested(fi.node):
+                if isinstance(n, ast.Assign):
+                    for t in n.targets:
+                        for tt in (t.elts if isinstance(t, (ast.Tuple, ast.List)) else [t]):
+                            if isinstance(tt, ast.Attribute) and isinstance(tt.value, ast.Name) and tt.value.id == x.id and tt.attr == r.attr \
+                                    and (tt is not t or not self.fresh_expr(fi, n.value, pf)):
+                                return False
+                elif isinstance(n, ast.AnnAssign) and isinstance(n.target, ast.Attribute) and isinstance(n.target.value, ast.Name) \
+                        and n.target.value.id == x.id and n.target.attr == r.attr:
+                    return False
+        elif isinstance(x, ast.Call):
+            ctors = [x]
+        else:
+            return False
+        for call in ctors:
+            cn = chain(call.func)
+            if not cn:
+                return False
+            try:
+                cq = self.prog.resolve_in_module(fi.module, cn)
+            except AnalysisError:
+                return False
+            if cq not in self.prog.classes:
+                return False
+            init = self.prog.lookup_method(cq, "__init__")
+            if init is None or self.prog.lookup_method(cq, "__new__") is not None or self.prog.lookup_method(cq, "__setattr__") is not None:
+                return False
+            b = bind_call(call, init, True)
+            if b is None:
+                return False
+            recv = all_params(init)[0]
+            cpf = {p: self.fresh_expr(fi, a, pf) for p, a in b.items()}
+            stores = []
+            for n in walk_no_nested(init.node):
+                if isinstance(n, (ast.Assign, ast.AugAssign, ast.AnnAssign)):
+                    tg = n.targets if isinstance(n, ast.Assign) else [n.target]
+                    for t in tg:
+                        for tt in ast.walk(t):
+                            if isinstance(tt, ast.Attribute) and isinstance(tt.value, ast.Name) and tt.value.id == recv and tt.attr == r.attr:
+                                if not (isinstance(n, ast.Assign) and tt is t and len(n.targets) == 1):
+                                    return False
+                                stores.append(n.value)
+                elif isinstance(n, ast.Call) and chain(n.func) in ("setattr", "super().__init__", "vars", "self.__dict__.update"):
+                    return False
+            if not stores or not all(self.fresh_expr(init, v, cpf) for v in stores):
+                return False
+        return True
 
     def _only_fresh_items(self, fi, d, pf):
         if not isinstance(d, ast.Name):
@@ -1820,3 +1887,280 @@ def callable_target(prog, fi, e, depth=0):
                 return t, b
         return lambda_info(fi, e), dflt
     return None
+
+
+# ---------------------------------------------------------------------------
+# C20.e: what a method computes from its receiver
+
+
+def _is_property(fi):
+    for d in getattr(fi.node, "decorator_list", []):
+        c = chain(d) or ""
+        if c in ("property", "functools.cached_property", "cached_property") or c.endswith(".getter"):
+            return True
+    return False
+
+
+class ReceiverFlow:
+    """Everything a method evaluates on behalf of its receiver, independent of how the computation is split up:
+    the method's own body, its closures / lambdas / comprehensions, and -- transitively -- the functions of the
+    analysed program it hands the receiver (or something read from the receiver) to: `self.m(..)`,
+    `helper(self, ..)`, `helper(self.base, ..)`, a property of the receiver, a bound method or a
+    functools.partial / forwarding lambda passed on as a value (`map(self.m, xs)`).
+
+    * `reads`  -- attribute chains rooted at the receiver (`self.links.links`) that are evaluated; a chain is
+                  followed through single-assignment locals, `getattr(x, "name")`, parameters of callees that
+                  receive a receiver chain, and properties of the receiver's class;
+    * `calls`  -- every call site seen, as (scope FuncInfo, env, call) where env maps the names of the scope that
+                  are known to hold a receiver chain to that chain;
+    * `units`  -- every function visited (FuncInfo), the root first.
+
+    Each callee is visited once per binding of its parameters.  Nothing depends on helper or local names."""
+
+    def __init__(self, prog, root, receiver=None):
+        self.prog = prog
+        self.root = root
+        self.cls = owner_class(root)
+        self.reads = set()
+        self.calls = []
+        self.units = []
+        self._done = set()
+        p = all_params(root)
+        recv = receiver or (p[0] if p else None)
+        self.visit(root, {recv: "self"} if recv else {}, 0)
+
+    # -- receiver chains -------------------------------------------------------
+    def rchain(self, scope, env, e, depth=0):
+        """Canonical chain (`self.a.b`) when e denotes the receiver or something reached from it by attribute
+        reads only; else None."""
+        if e is None or depth > 6:
+            return None
+        if isinstance(e, ast.NamedExpr):
+            return self.rchain(scope, env, e.value, depth + 1)
+        if isinstance(e, ast.Name):
+            if e.id in env:
+                return env[e.id]
+            if scope is not None and not isinstance(scope.node, ast.Lambda):
+                v = assigned_value(scope.node, e.id)
+                if v is not None and len(writes_to_name(scope.node, e.id)) == 1:
+                    return self.rchain(scope, env, v, depth + 1)
+            return None
+        if isinstance(e, ast.Attribute):
+            b = self.rchain(scope, env, e.value, depth + 1)
+            return None if b is None else b + "." + e.attr
+        if isinstance(e, ast.Call) and chain(e.func) == "getattr" and len(e.args) in (2, 3) and not e.keywords \
+                and isinstance(e.args[1], ast.Constant) and isinstance(e.args[1].value, str):
+            b = self.rchain(scope, env, e.args[0], depth + 1)
+            return None if b is None else b + "." + e.args[1].value
+        return None
+
+    # -- traversal -------------------------------------------------------------
+    def _scope_env(self, fi, env):
+        """env restricted to the names that keep their entry value: a rebound parameter is unknown."""
+        if isinstance(fi.node, ast.Lambda):
+            return dict(env)
+        return {k: v for k, v in env.items() if not writes_to_name(fi.node, k)}
+
+    def visit(self, fi, env, depth):
+        env = self._scope_env(fi, env)
+        key = (fi.qn, tuple(sorted(env.items())))
+        if key in self._done or depth > 6 or len(self._done) > 150:
+            return
+        self._done.add(key)
+        if fi not in self.units:
+            self.units.append(fi)
+        body = fi.node.body if isinstance(fi.node.body, list) else [fi.node.body]
+        for st in body:
+            self._walk(st, fi, env, depth)
+
+    @staticmethod
+    def _closure_env(fnode, env):
+        a = fnode.args
+        own = {x.arg for x in a.posonlyargs + a.args + a.kwonlyargs} | ({a.vararg.arg} if a.vararg else set()) | ({a.kwarg.arg} if a.kwarg else set())
+        return {k: v for k, v in env.items() if k not in own}
+
+    def _walk(self, n, scope, env, depth):
+        if isinstance(n, (ast.FunctionDef, ast.AsyncFunctionDef)):
+            # a named closure is entered where it is called (parameters bound) or passed on as a value, not
+            # where it is defined: a definition alone evaluates only its defaults and decorators
+            for d in n.args.defaults + [x for x in n.args.kw_defaults if x is not None] + n.decorator_list:
+                self._walk(d, scope, env, depth)
+            return
+        if isinstance(n, ast.Lambda):
+            # evaluated by whoever receives it: it sees the enclosing bindings except its own parameters
+            a = n.args
+            for d in a.defaults + [x for x in a.kw_defaults if x is not None]:
+                self._walk(d, scope, env, depth)
+            g = lambda_info(scope, n)
+            self._walk(n.body, g, self._closure_env(n, env), depth)
+            return
+        if isinstance(n, ast.ClassDef):
+            return
+        if isinstance(n, (ast.ListComp, ast.SetComp, ast.DictComp, ast.GeneratorExp)):
+            sub = dict(env)
+            for gen in n.generators:
+                self._walk(gen.iter, scope, sub, depth)
+                for x in ast.walk(gen.target):
+                    if isinstance(x, ast.Name):
+                        sub.pop(x.id, None)
+                for c in gen.ifs:
+                    self._walk(c, scope, sub, depth)
+            for part in ([n.key, n.value] if isinstance(n, ast.DictComp) else [n.elt]):
+                self._walk(part, scope, sub, depth)
+            return
+        if isinstance(n, ast.Attribute) and isinstance(n.ctx, ast.Load):
+            self._attribute(scope, env, n, depth, called=False)
+        elif isinstance(n, ast.Call):
+            self.calls.append((scope, env, n))
+            c = self.rchain(scope, env, n)  # getattr(x, "name")
+            if c is not None:
+                self.reads.add(c)
+            entered = self._call(scope, env, n, depth)
+            # the callee expression: entered above with the arguments bound -- do not enter it a second time
+            # as a mere function value (without bindings)
+            f = n.func
+            if isinstance(f, ast.Attribute):
+                self._attribute(scope, env, f, depth, called=True)
+                self._walk(f.value, scope, env, depth)
+            elif not (entered and isinstance(f, ast.Name)):
+                self._walk(f, scope, env, depth)
+            args = list(n.args)
+            if entered and (chain(f) or "").split(".")[-1] == "partial" and args:
+                a0 = args.pop(0)
+                if isinstance(a0, ast.Attribute):
+                    self._attribute(scope, env, a0, depth, called=True)
+                    self._walk(a0.value, scope, env, depth)
+                elif not isinstance(a0, ast.Name):
+                    self._walk(a0, scope, env, depth)
+            for a in args:
+                self._walk(a, scope, env, depth)
+            for k in n.keywords:
+                self._walk(k.value, scope, env, depth)
+            return
+        elif isinstance(n, ast.Name) and isinstance(n.ctx, ast.Load) and n.id not in env:
+            # a function of the program passed on as a value
+            t = callable_target(self.prog, scope, n) if not self._is_local_value(scope, n.id) else None
+            if t is not None and not isinstance(t[0].node, ast.Lambda):
+                self.visit(t[0], self._closure_env(t[0].node, env) if t[0].parent is not None else {}, depth + 1)
+        for ch in ast.iter_child_nodes(n):
+            self._walk(ch, scope, env, depth)
+
+    def _attribute(self, scope, env, n, depth, called):
+        c = self.rchain(scope, env, n)
+        if c is not None:
+            self.reads.add(c)
+            self._member(scope, env, n, c, depth, called)
+
+    def _is_local_value(self, scope, name):
+        return not isinstance(scope.node, ast.Lambda) and bool(writes_to_name(scope.node, name))
+
+    def _member(self, scope, env, n, c, depth, called):
+        """`<receiver>.name` where name is a property or a method of the receiver's class: the property body /
+        the method (when the bound method is passed on as a value) is part of the computation."""
+        base = c.rsplit(".", 1)[0]
+        if base != "self" or not self.cls:
+            return
+        m = self.prog.lookup_method(self.cls, n.attr)
+        if m is None:
+            return
+        p = all_params(m)
+        if not p or is_static(m):
+            return
+        if _is_property(m) or not called:
+            self.visit(m, {p[0]: "self"}, depth + 1)
+
+    def _call(self, scope, env, call, depth):
+        f = call.func
+        target = None  # (callee, {param: arg expr}, receiver chain or None)
+        if isinstance(f, ast.Attribute):
+            rc = self.rchain(scope, env, f.value)
+            if rc == "self" and self.cls:
+                m = self.prog.lookup_method(self.cls, f.attr)
+                if m is not None and not _is_property(m):
+                    b = bind_call(call, m, not is_static(m))
+                    target = (m, b or {}, None if is_static(m) else "self")
+        if target is None and (chain(f) or "").split(".")[-1] == "partial":
+            t = callable_target(self.prog, scope, call)
+            if t is not None:
+                target = (t[0], t[1], "self" if isinstance(call.args[0], ast.Attribute) and self.rchain(scope, env, call.args[0].value) == "self" else None)
+        if target is None:
+            r = resolve_callee(self.prog, scope, call) if not (isinstance(f, ast.Name) and f.id in env) else None
+            if r is not None:
+                callee, bm = r
+                rc = self.rchain(scope, env, f.value) if bm and isinstance(f, ast.Attribute) else None
+                if not bm or rc is not None:
+                    target = (callee, bind_call(call, callee, bm) or {}, rc if bm else None)
+        if target is None:
+            return False
+        callee, b, rc = target
+        # a closure called from (a scope nested in) its defining scope sees that scope's bindings
+        sub = self._closure_env(callee.node, env) if callee.parent is not None else {}
+        for p, a in b.items():
+            ch = self.rchain(scope, env, a)
+            if ch is not None:
+                sub[p] = ch
+        if rc is not None:
+            p = all_params(callee)
+            if p:
+                sub[p[0]] = rc
+        self.visit(callee, sub, depth + 1)
+        return True
+
+
+def _pair_values(scope, e, key, limit=40):
+    """Value expressions of the `[key, X]` / `(key, X)` displays among everything that may become an element of
+    the list expression e: e itself, the definitions of the locals it mentions (plain, augmented, annotated
+    assignments), and what is appended / inserted / extended onto those locals."""
+    out, seen, todo = [], set(), [e]
+    fnode = None if scope is None or isinstance(scope.node, ast.Lambda) else scope.node
+    while todo and limit:
+        limit -= 1
+        x = todo.pop()
+        for n in ast.walk(x):
+            if isinstance(n, (ast.List, ast.Tuple)) and len(n.elts) == 2 and isinstance(n.elts[0], ast.Constant) and n.elts[0].value == key:
+                out.append(n.elts[1])
+            elif isinstance(n, ast.Name) and fnode is not None and n.id not in seen:
+                seen.add(n.id)
+                for w in writes_to_name(fnode, n.id):
+                    v = getattr(w, "value", None)
+                    if isinstance(w, (ast.Assign, ast.AugAssign, ast.AnnAssign, ast.NamedExpr)) and v is not None:
+                        todo.append(v)
+                for c in walk_no_nested(fnode):
+                    if isinstance(c, ast.Call) and isinstance(c.func, ast.Attribute) and isinstance(c.func.value, ast.Name) and c.func.value.id == n.id \
+                            and c.func.attr in ("append", "extend", "insert", "__iadd__"):
+                        todo.extend(c.args)
+    return out
+
+
+def ctor_attribute(scope, call, key, positional=None, pairs_param="attr_pairs"):
+    """How a `Link(href, attr_pairs=None, **kwargs)`-style construction is given attribute `key`:
+    (value expressions, opaque).  The spellings of one fact: the keyword `key=X`, an entry of a `**{..}` /
+    `**dict(..)` display, the positional argument number `positional` (for the target `href`), or -- for the
+    attributes the constructor appends to its pair list -- a `[key, X]` pair in the attr_pairs argument.
+    opaque: the call passes `*args` or a `**mapping` that is not a display, so the answer may be incomplete."""
+    fnode = None if scope is None or isinstance(scope.node, ast.Lambda) else scope.node
+    vals, opaque = [], any(isinstance(a, ast.Starred) for a in call.args)
+    kws = {}
+    for k in call.keywords:
+        if k.arg is not None:
+            kws.setdefault(k.arg, []).append(k.value)
+            continue
+        d = resolve_local(fnode, k.value) if fnode is not None else k.value
+        if isinstance(d, ast.Dict) and all(isinstance(x, ast.Constant) for x in d.keys):
+            for kk, vv in zip(d.keys, d.values):
+                kws.setdefault(kk.value, []).append(vv)
+        elif isinstance(d, ast.Call) and chain(d.func) == "dict" and not d.args and all(x.arg is not None for x in d.keywords):
+            for x in d.keywords:
+                kws.setdefault(x.arg, []).append(x.value)
+        else:
+            opaque = True
+    vals += kws.get(key, [])
+    if positional is not None and len(call.args) > positional and not any(isinstance(a, ast.Starred) for a in call.args[:positional + 1]):
+        vals.append(call.args[positional])
+    if pairs_param is not None and key != pairs_param:
+        ap = kws.get(pairs_param, [])
+        if not ap and len(call.args) > 1 and not any(isinstance(a, ast.Starred) for a in call.args[:2]):
+            ap = [call.args[1]]
+        for a in ap:
+            vals += _pair_values(scope, a, key)
+    return vals, opaque
